@@ -62,7 +62,7 @@ def strategy(tier):
       nworld=st.integers(1, 3),
       cap_con=cap,
       cap_con_kind=st.sampled_from(["nconmax", "naconmax"]),
-      cap_j=cap,
+      cap_j=st.sampled_from(["ample", "ample", "zero", "one", "tiny", "near", "m16", "m16"]),
       cap_nnz=st.sampled_from(["default", "default", "zero", "tiny", "near"]),
       cap_nv=st.sampled_from(["default", "default", "half", "one"]),
       cap_ccd=st.sampled_from(["default", "default", "one"]),
@@ -83,6 +83,10 @@ def _cap(kind, need, rng_i):
     return 1
   if kind == "tiny":
     return [2, 3, 5][rng_i % 3]
+  if kind == "m16":
+    # a multiple of 16 just below the need: per-row arrays are padded to multiples of 16, so only then does a row block that straddles
+    # the capacity reach past the allocation
+    return max(16, (max(need - 1, 0) // 16) * 16 - 16 * (rng_i % 2 if need > 32 else 0))
   return max(0, need + [-1, 0, 1][rng_i % 3])  # near
 
 
